@@ -196,10 +196,74 @@ enum WorkerMsg {
     Error(String),
 }
 
+/// Regression corpus: minimised scenarios / store histories that once exposed a defect of the
+/// pinned tree or a seeded change (`corpus/<prop>/*.json`, replay-file format). Every check
+/// re-executes them first, so a defect that returns is reported deterministically and not only
+/// when the seeded search happens to line the same things up again. Any finding of the
+/// property counts, not just the signature recorded in the file.
+fn corpus_files(prop: &str) -> Vec<PathBuf> {
+    let dir = PathBuf::from(format!("{}/corpus/{}", verif_root(), prop));
+    let mut v: Vec<PathBuf> = match std::fs::read_dir(&dir) {
+        Ok(rd) => rd.filter_map(|e| e.ok().map(|e| e.path())).filter(|p| p.extension().map_or(false, |x| x == "json")).collect(),
+        Err(_) => Vec::new(),
+    };
+    v.sort();
+    v
+}
+
+const CORPUS_INDEX_BASE: u64 = 1 << 62;
+
+fn worker_corpus(prop: &str, first: u64, stride: u64, tally: &mut Tally, seen: &mut HashSet<String>) {
+    let stdout = std::io::stdout();
+    for (idx, path) in corpus_files(prop).iter().enumerate() {
+        if idx as u64 % stride != first {
+            continue;
+        }
+        let rp: Replay = match std::fs::read_to_string(path).map_err(|e| e.to_string()).and_then(|s| serde_json::from_str(&s).map_err(|e| e.to_string())) {
+            Ok(r) => r,
+            Err(e) => {
+                let m = WorkerMsg::Error(format!("corpus file {} unreadable: {}", path.display(), e));
+                writeln!(stdout.lock(), "{}", serde_json::to_string(&m).unwrap()).unwrap();
+                continue;
+            }
+        };
+        *tally.ostats.entry("corpus_scenarios_replayed".into()).or_default() += 1;
+        let run_index = CORPUS_INDEX_BASE + idx as u64;
+        let fds: Result<Vec<model::Finding>, String> = match rp.kind.as_str() {
+            "store" => rp.history.as_ref().ok_or_else(|| "no history".to_string()).and_then(|h| store::run(h).map(|r| r.findings)),
+            _ => {
+                let mut scratch = Tally::default();
+                rp.scenario.as_ref().ok_or_else(|| "no scenario".to_string()).and_then(|sc| one_run(prop, sc, &mut scratch))
+            }
+        };
+        match fds {
+            Ok(fds) => {
+                let spun = fds.iter().any(|f| f.sig.starts_with("spin:"));
+                for f in fds {
+                    if f.prop == prop && seen.insert(f.sig.clone()) {
+                        let m = WorkerMsg::Finding { run_index, prop: f.prop.to_string(), sig: f.sig, detail: format!("{} [corpus entry {}]", f.detail, path.file_name().unwrap().to_string_lossy()), scenario: rp.scenario.clone(), history: rp.history.clone() };
+                        writeln!(stdout.lock(), "{}", serde_json::to_string(&m).unwrap()).unwrap();
+                    }
+                }
+                if spun {
+                    compact(tally);
+                    writeln!(stdout.lock(), "{}", serde_json::to_string(&WorkerMsg::Tally(std::mem::take(tally))).unwrap()).unwrap();
+                    std::process::exit(0);
+                }
+            }
+            Err(e) => {
+                let m = WorkerMsg::Error(format!("corpus file {}: {}", path.display(), e));
+                writeln!(stdout.lock(), "{}", serde_json::to_string(&m).unwrap()).unwrap();
+            }
+        }
+    }
+}
+
 fn worker(prop: &str, verif_seed: u64, first: u64, count: u64, stride: u64, store_runs: u64) {
     let mut tally = Tally::default();
     let stdout = std::io::stdout();
     let mut seen: HashSet<String> = HashSet::new();
+    worker_corpus(prop, first, stride, &mut tally, &mut seen);
     let mut i = first;
     let mut done = 0;
     while done < count {
